@@ -126,6 +126,56 @@ Section Proofs.
     specialize (P3 eq_refl). split; [exact P3|]. lia.
   Qed.
 
+  (* ---------------- without quiescence: how early can a write return? ---------------- *)
+  Record GInv (k : nat) (s : st) : Prop := {
+    g_calls : calls S s = (length (queue S s) + length (received S s))%nat;
+    g_recv : (length (received S s) + k = length (dev_pending S s) + nterm (from_dev S s) + termd S s)%nat;
+    g_phase : match ph S s with
+              | Idle => calls S s = length (outcomes S s) /\ (length (outcomes S s) <= termd S s)%nat
+              | Waiting => calls S s = Datatypes.S (length (outcomes S s)) /\ (length (outcomes S s) <= termd S s)%nat /\
+                           (ack S s = true -> (Datatypes.S (length (outcomes S s)) <= termd S s)%nat)
+              end
+  }.
+
+  Lemma ginv_init stmts k : GInv k (init S stmts k).
+  Proof.
+    constructor; cbn; auto. unfold nterm. induction k as [|k IH]; [reflexivity|]. cbn. cbn in IH. lia.
+  Qed.
+
+  Lemma ginv_step k l s s' : no_alarm l -> GInv k s -> step S l s = Some s' -> GInv k s'.
+  Proof.
+    intros Hl [Hc Hr Hp] H. destruct s as [td p a sd q dp fd rc oc tm cl sp te]. cbn in *.
+    destruct l; cbn in H.
+    - destruct p; [|discriminate]. destruct td as [|x rest]; [discriminate|]. injection H as <-.
+      constructor; cbn; rewrite ?app_length; cbn; try lia; try (destruct Hp; repeat split; try lia; discriminate).
+    - destruct p; [discriminate|]. destruct a; [|discriminate]. destruct td as [|x rest]; [discriminate|]. injection H as <-.
+      destruct Hp as (A & B & C0). specialize (C0 eq_refl). constructor; cbn; rewrite ?app_length; cbn; try lia.
+    - destruct q as [|x rest]; [discriminate|]. injection H as <-. constructor; cbn in *; rewrite ?app_length; cbn; try lia. exact Hp.
+    - destruct dp as [|x rest]; [discriminate|]. injection H as <-. constructor; cbn -[nterm] in *; rewrite ?nterm_app; try exact Hp; try lia.
+      destruct err; unfold nterm in *; cbn in *; lia.
+    - injection H as <-. constructor; cbn -[nterm] in *; rewrite ?nterm_app; try exact Hp; unfold nterm in *; cbn in *; lia.
+    - exfalso. apply Hl. reflexivity.
+    - destruct fd as [|[| |] rest]; [discriminate| | |]; injection H as <-; constructor; cbn in *; try lia; unfold nterm in *; cbn in *; try lia.
+      + destruct p; [lia|]. destruct Hp as (A & B & C0). repeat split; try lia.
+      + destruct p; [lia|]. destruct Hp as (A & B & C0). repeat split; try lia.
+      + exact Hp.
+  Qed.
+
+  (* with k acknowledgements still on their way when the first write() starts (k = 1: the trailing M110 of the start-up
+     print), completed writes still never outnumber handled acknowledgements -- but k of those belong to nobody, so write
+     number i may return as soon as the acknowledgement of statement i - k has been handled: at most k statements early,
+     never more *)
+  Theorem sync_stale stmts k ls s : Forall no_alarm ls -> run S ls (init S stmts k) = Some s ->
+    (length (outcomes S s) <= termd S s)%nat /\
+    (length (received S s) + k = length (dev_pending S s) + nterm (from_dev S s) + termd S s)%nat.
+  Proof.
+    intros Hls H. assert (GInv k s) as [Hc Hr Hp].
+    { revert H. generalize (ginv_init stmts k). generalize (init S stmts k).
+      induction Hls as [|l ls Hl _ IH]; intros s0 Hi H; cbn in H; [injection H as <-; exact Hi|].
+      destruct (step S l s0) as [s1|] eqn:E; [|discriminate]. apply (IH s1); [eapply ginv_step; eauto|exact H]. }
+    split; [|exact Hr]. destruct (ph S s); [destruct Hp; lia|destruct Hp as (A & B & C0); lia].
+  Qed.
+
   (* ---------------- errors surface ---------------- *)
   Lemma stored_kept l s s' : step S l s = Some s' -> stored S s = true -> l <> Return -> stored S s' = true.
   Proof.
